@@ -9,6 +9,7 @@ package txfile
 import (
 	"os"
 	"path/filepath"
+	"runtime/debug"
 
 	"github.com/gofrs/flock"
 )
@@ -46,6 +47,8 @@ func verifDamage(path string, restore []byte) []byte {
 }
 
 func VerifPathLock() {
+	// a leaked lock descriptor would be released by a finalizer; keep it observable
+	defer debug.SetGCPercent(debug.SetGCPercent(-1))
 	dir, derr := os.MkdirTemp("", "verifc18")
 	verifAssert(derr == nil, "temp dir")
 	defer os.RemoveAll(dir)
@@ -71,14 +74,14 @@ func VerifPathLock() {
 			f, err := Open(path, 0600, bad)
 			verifAssert(err != nil && f == nil, "Open with invalid options fails")
 		case 2:
-			if st, serr := os.Stat(path); open == nil && serr == nil && st.Size() > 2*verifPageSize {
+			if st, serr := os.Stat(path); open == nil && serr == nil && st.Size() >= 2*verifPageSize {
 				saved := verifDamage(path, nil)
 				f, err := Open(path, 0600, opts)
 				verifAssert(err != nil && f == nil, "Open with both headers damaged fails")
 				verifDamage(path, saved)
 			}
 		case 3:
-			if open == nil {
+			if open == nil && verifParam("nofault", 0) == 0 {
 				verifChoose(len(verifFaultKinds)) // keep the variable numbering of the engine harness
 			}
 		case 4:
